@@ -145,6 +145,16 @@ func genCfg(rnd *tr.Rand, focus string) *caseCfg {
 		case "readfrom-after-spill":
 			// a backlog spilled into the list part of the outbound buffer, a partial drain, then ReadFrom + Flush
 			c.sndbuf, c.wbufcap = 4096, 1024
+		case "accept-fatal":
+			// the third accept4 fails with EMFILE: the loop gives up (ErrAcceptSocket) while it owns two open
+			// connections; both must get their OnClose before Run returns
+			c.maxConns = 3
+			c.inject = []inject{{name: "accept", index: 2, kind: "emfile", cid: -1}}
+		case "write-fail-del-fail":
+			// two faults on ONE connection: the handler's Write fails hard, and the EPOLL_CTL_DEL of the close
+			// that follows fails too; the engine and the other connection must not notice
+			c.maxConns = 2
+			c.inject = []inject{{name: "wr", index: 0, kind: "epipe", cid: -1}, {name: "epctl-del", index: 0, kind: "ebadf", cid: -1}}
 		case "shutdown-sweep":
 			c.maxConns = 3
 		case "register-fails":
@@ -197,7 +207,11 @@ func genCfg(rnd *tr.Rand, focus string) *caseCfg {
 				if !c.et {
 					kinds = append(kinds, "eagain", "eagain")
 				}
-			case "accept", "accept0":
+			case "accept":
+				// the last one is fatal: the loop gives up (ErrAcceptSocket), the engine shuts down, and every
+				// connection that loop still owns must get its OnClose
+				kinds = []string{"eintr", "econnaborted", "econnreset", "emfile"}
+			case "accept0":
 				kinds = []string{"eintr", "econnaborted", "econnreset"}
 			case "wait":
 				kinds = []string{"eintr"}
@@ -1045,6 +1059,16 @@ func runCase(w *tr.Writer, seed uint64, idx int, focus string) {
 
 	lap("drain")
 	// ---- stop
+	if engineDown() {
+		rec.mu.Lock()
+		asked := rec.shutdownAsked || rec.acceptFatal
+		rec.mu.Unlock()
+		if !asked {
+			// C18: no failure on one connection may take the engine down; only a Shutdown action, a stop
+			// request or a fatal accept error ends Run
+			rec.Fail("engine-exit", "unasked", "Run returned although no callback returned Shutdown, nobody called Stop and accept did not fail fatally")
+		}
+	}
 	if !engineDown() {
 		if cfg.client {
 			go func() { done <- cli.Stop() }()
